@@ -26,6 +26,6 @@ INIT MCInit
 NEXT MCNext
 VIEW View
 CONSTRAINT Bound
-INVARIANTS Inv ErrOnlyQuorum0
+INVARIANTS Inv NoEndBlockError
 PROPERTIES MCActivationRule MCDeactivationRule MCReporterSafe MCGraceSafe MCStatusStable MCVPriceRule MCPriceOnlyAtEndBlock MCPriceRule
 CHECK_DEADLOCK FALSE
